@@ -98,7 +98,7 @@ def model_value_token(tok):
 def make_env(lctx):
     from nunavut.jinja.environment import CodeGenEnvironmentBuilder
     from nunavut.jinja.jinja2 import DictLoader
-    return CodeGenEnvironmentBuilder(DictLoader({"probe": "{{ options | length }}"}), lctx).create()
+    return CodeGenEnvironmentBuilder(DictLoader({"probe": "{{ 'class' | id }}|{{ 'std' | id }}|{{ ln.c.options.std }}"}), lctx).create()
 
 
 def observe_all(lctx, with_templates=True):
@@ -174,6 +174,8 @@ def gen_hist_doc(rng, sects, target_sect):
             body["named_values"] = {rng.choice(["true", "mine"]): rng.choice(["T", 1, None, "yes"])}
         if rng.random() < 0.06:
             body["stable_support"] = rng.choice([True, False])
+        if rng.random() < 0.3:
+            body["reserved_identifiers"] = rng.choice([["foo", "bar"], ["int", "class", "zz"], [], ["std"]])
         doc[sec] = body
     if rng.random() < 0.03:
         doc[PFX + "zz9"] = {"extension": ".zz"}
@@ -267,6 +269,65 @@ def check_language_path_precedence(ctx, builtin, files, sect, overrides, lang, d
                               observed=base.wire(got) if got is not base._ABSENT else None))
 
 
+IDENTIFIERS = ["std", "int", "class", "mine", "foo", "for", "x_y", "zz", "print", "_Reserved", "a b", "9lives", "None"]
+
+
+def use_context(ctx, lctx):
+    """What every generator run does with a context: strop identifiers in every language of the map (the token encoders are
+    created lazily on the first one), strop for the target, render a template.  Errors of the filters are not our business."""
+    used = 0
+    for name, lang in sorted(lctx.get_supported_languages().items()):
+        for ident in IDENTIFIERS:
+            for id_type in ("any", "path"):
+                try:
+                    lang.filter_id(ident, id_type)
+                    used += 1
+                except Exception:  # noqa
+                    pass
+    for ident in IDENTIFIERS:
+        try:
+            lctx.filter_id_for_target(ident)
+        except Exception:  # noqa
+            pass
+    try:
+        env = make_env(lctx)
+        env.get_template("probe").render()
+        env.from_string("{{ 'std' | id }}|{{ 'class' | id }}").render()
+    except Exception:  # noqa
+        ctx.count("use_template_raised")
+    ctx.count("contexts_used")
+    return used
+
+
+def check_use_is_read_only(ctx, lctx, before, caller_docs, desc):
+    """Using a context changes no value it reports and no source document.  (List leaves are merged BY REFERENCE: the
+    configuration's list object is the list of the override document the caller handed in - so this is exactly the
+    place where an in-place list operation anywhere behind the context would show.)"""
+    after = base.wire(lctx.config.sections())
+    ctx.count("use_read_only_checks")
+    if after != before:
+        secs = lctx.config.sections()
+        b0 = base.parse_wire(before)
+        diff = [list(p) for p in sorted(set(base.all_paths(secs)) | set(base.all_paths(b0)))
+                if not isinstance(base.at(secs, p), dict) and not isinstance(base.at(b0, p), dict)
+                and (base.at(secs, p) is base._ABSENT or base.at(b0, p) is base._ABSENT or base.wire(base.at(secs, p)) != base.wire(base.at(b0, p)))]
+        ctx.fail({"kind": "use-changes-configuration"},
+                 "stropping identifiers / rendering a template changed a value the context reports (it is no longer the value of any source)",
+                 dict(desc, changed_paths=diff[:10],
+                      before={"/".join(p): base.wire(base.at(b0, tuple(p)))[:300] for p in diff[:4] if base.at(b0, tuple(p)) is not base._ABSENT},
+                      after={"/".join(p): base.wire(base.at(secs, tuple(p)))[:300] for p in diff[:4] if base.at(secs, tuple(p)) is not base._ABSENT}))
+    for (b, key, obj, was) in caller_docs:
+        ctx.count("caller_documents_checked_after_use")
+        if isinstance(obj, list):
+            sect = PFX + lctx.get_target_language().name
+            if lctx.config.sections().get(sect, {}).get(key) is obj:
+                ctx.count("configuration_list_is_the_callers_list_object")
+        if base.wire(obj) != was:
+            ctx.fail({"kind": "source-mutated", "when": "use"},
+                     "using the context modified an override document the caller handed to the builder",
+                     dict(desc, override_key=key, handed_over=was[:600], now=base.wire(obj)[:600]))
+
+
 def check_access_paths_agree(ctx, lctx, desc, env=None):
     """after the map exists: config, Language objects and template globals tell the same"""
     langs = lctx.get_supported_languages()
@@ -318,6 +379,7 @@ class History:
     def __init__(self, ctx, rng, seqno, builtin_py, sects, nbuilders=None):
         from nunavut.lang import LanguageContextBuilder
         self.ops, self.impl, self.notes = [], [], []
+        self.caller_docs = []     # (builder, key, the caller's own override object, its value when it was handed over)
         self.builders = []        # description of each builder for the fresh-process comparison
         self.contexts = []        # (b, j, lctx, observation after forcing, desc)
         d = ctx.scratch / ("hist%04d" % seqno)
@@ -435,15 +497,19 @@ class History:
                     bld.add_config_files(*[pool[p] for p in batch])
                     self.impl[-1] = "-"
                 else:
-                    if rng.random() < 0.7:
+                    r0 = rng.random()
+                    if r0 < 0.6:
                         key, val = "options", gen_opts(rng, tsect, True)
+                    elif r0 < 0.8:
+                        key, val = "reserved_identifiers", rng.choice([["mine", "yours"], ["for", "x_y"], []])
                     else:
                         key, val = rng.choice(["extension", "namespace_file_stem", "new_key"]), rng.choice([".h", ".hh", None, base.DV()("dv"), ""])
                     desc["calls"].append(["override", key, None if val is None else base.wire(val)])
                     self._op("O/%d/%s/%s" % (b, base.enc_atom(key), "!" if val is None else base.wire(val)), "-")
-                    bld.set_target_language_configuration_override(key, copy.deepcopy(val))
+                    bld.set_target_language_configuration_override(key, val)
                     if val is not None:
                         overrides[key] = val
+                        self.caller_docs.append((b, key, val, base.wire(val)))
             ncreate = 2 if rng.random() < 0.15 else 1
             desc["creates"] = ncreate
             made = []
@@ -494,6 +560,9 @@ class History:
             ctx.count("history_map_" + ans)
             self.builders[-1] = None
             raise _BuilderDead()
+        before_use = base.wire(lctx.config.sections())
+        if rng.random() < 0.5:
+            use_context(ctx, lctx)
         # 3. everything, through every path
         self._read(lctx, b, j, ("nm",))
         for sect in sects + ([PFX + "zz9"] if rng.random() < 0.2 else []):
@@ -510,9 +579,15 @@ class History:
             self._read(lctx, b, j, ("to", k))
             self._read(lctx, b, j, ("lo", tsect, k))
         self._read(lctx, b, j, ("tv", "extension"))
+        # USE the context (strop identifiers in every language, render a template), then read the list-valued keys again
+        use_context(ctx, lctx)
+        for sect in sects:
+            self._read(lctx, b, j, ("cv", sect, "reserved_identifiers"))
+            self._read(lctx, b, j, ("cv", sect, "options"))
         # independent predicates
         env = make_env(lctx)
         d2 = {"history": self.describe(), "builder": b, "context": j}
+        check_use_is_read_only(ctx, lctx, before_use, [c for c in self.caller_docs if c[0] == b], d2)
         check_access_paths_agree(ctx, lctx, d2, env)
         langs = lctx.get_supported_languages()
         for name, lang in sorted(langs.items()):
@@ -1023,7 +1098,7 @@ def replay_history(ctx, ops):
     d = ctx.scratch / "replay_hist"
     d.mkdir(exist_ok=True)
     content, builders, descs, files_read, overrides, contexts, dead = {}, {}, {}, {}, {}, {}, set()
-    log = []
+    log, caller_docs = [], []
     for tok in ops:
         f = tok.split("/")
         try:
@@ -1054,9 +1129,10 @@ def replay_history(ctx, ops):
                 key = f[2] if not f[2].startswith("%") else bytes.fromhex(f[2][1:]).decode("utf-8")
                 val = None if f[3] == "!" else base.parse_wire("/".join(f[3:]))
                 descs[b]["calls"].append(["override", key, None if val is None else base.wire(val)])
-                builders[b].set_target_language_configuration_override(key, copy.deepcopy(val))
+                builders[b].set_target_language_configuration_override(key, val)
                 if val is not None:
                     overrides[b][key] = val
+                    caller_docs.append((b, key, val, base.wire(val)))
             elif f[0] == "C":
                 b, j = int(f[1]), int(f[2])
                 contexts[(b, j)] = builders[b].create()
@@ -1076,10 +1152,13 @@ def replay_history(ctx, ops):
         d2 = {"history": {"ops": list(ops)}, "builder": b, "context": j}
         try:
             langs = lctx.get_supported_languages()
+            before_use = base.wire(lctx.config.sections())
+            use_context(ctx, lctx)
             env = make_env(lctx)
         except Exception as e:  # noqa
             log.append({"context": [b, j], "raised": hist_exc_kind(e)})
             continue
+        check_use_is_read_only(ctx, lctx, before_use, [c for c in caller_docs if c[0] == b], d2)
         tsect = PFX + lctx.get_target_language().name
         check_access_paths_agree(ctx, lctx, d2, env)
         for name, lang in sorted(langs.items()):
